@@ -564,6 +564,86 @@ pub async fn cmd_server(args: Vec<String>) -> Result<()> {
         let r = isolation(&client, x, y, seed + i as u64).await;
         env.log.emit("iso", json!({"a": x, "b": y, "res": match &r { Ok(s) => s.clone(), Err(e) => format!("error: {e}") }}));
     }
+    // C11 / C17: a server that has been up for a while.  More than a thousand connections come and go, each
+    // registering on a topic or two out of forty; every one of those stream opens must be answered like the
+    // first, and afterwards the server serves fresh topics as before (whatever it counts per connection,
+    // per stream or per topic must not add up to a refusal or a stall).
+    {
+        env.log.emit("case", json!({"run": 999_997, "tasks": []}));
+        let n_conn: usize = arg(&args, "--longlife").and_then(|s| s.parse().ok()).unwrap_or(1200);
+        let (addr, certs) = (env.server.addr, env.certs.clone());
+        let t0 = std::time::Instant::now();
+        let mut workers = vec![];
+        for w in 0..8usize {
+            let certs = certs.clone();
+            workers.push(tokio::spawn(async move {
+                let (mut connect_failed, mut not_ok, mut detail) = (0u64, 0u64, String::new());
+                let mut i = w;
+                while i < n_conn {
+                    match tokio::time::timeout(Duration::from_secs(10), raw_connect_trusted(addr, &certs)).await {
+                        Ok(Ok(conn)) => {
+                            for (role, t) in [("sub", format!("/vlong{}/top{}", seed % 1000, i % 40)), ("req", format!("/vlong{}/rpc{}", seed % 1000, i % 40))] {
+                                let r = async {
+                                    let mut st = raw_stream(&conn).await?;
+                                    st.send(reg_frame(role, TopicName::try_from(t.as_str())?)).await?;
+                                    Ok::<_, anyhow::Error>(first_reply(&mut st).await.0)
+                                };
+                                let kind = match tokio::time::timeout(Duration::from_secs(10), r).await {
+                                    Ok(Ok(k)) => k,
+                                    Ok(Err(e)) => format!("error: {e}"),
+                                    Err(_) => "timeout".to_string(),
+                                };
+                                if kind != "ok" {
+                                    not_ok += 1;
+                                    if detail.is_empty() {
+                                        detail = format!("connection {i} {role}: {kind}");
+                                    }
+                                }
+                                if i % 3 == 0 {
+                                    break;
+                                }
+                            }
+                            conn.close(0u32.into(), b"bye");
+                        }
+                        Ok(Err(e)) => {
+                            connect_failed += 1;
+                            if detail.is_empty() {
+                                detail = format!("connection {i}: {e}");
+                            }
+                        }
+                        Err(_) => {
+                            connect_failed += 1;
+                            if detail.is_empty() {
+                                detail = format!("connection {i}: connect timeout");
+                            }
+                        }
+                    }
+                    if connect_failed + not_ok > 20 {
+                        break;
+                    }
+                    i += 8;
+                }
+                (connect_failed, not_ok, detail)
+            }));
+        }
+        let (mut cf, mut no, mut detail) = (0u64, 0u64, String::new());
+        for h in workers {
+            let (a, b, d) = h.await?;
+            cf += a;
+            no += b;
+            if detail.is_empty() {
+                detail = d;
+            }
+        }
+        env.log.emit("longlife", json!({"connections": n_conn, "connect_failed": cf, "not_ok": no,
+            "detail": detail.chars().take(120).collect::<String>(), "ms": t0.elapsed().as_millis() as u64}));
+        let fresh = connect_client(env.server.addr, &env.certs, BackoffStrategy::constant().with_max_attempts(0)).await?;
+        for (tp, pattern) in [(format!("/vlong{}/after-ps", seed % 1000), "pubsub"), (format!("/vlong{}/after-rr", seed % 1000), "reqrep")] {
+            let r = tokio::time::timeout(Duration::from_secs(20), probe(&fresh, &tp, pattern)).await;
+            env.log.emit("probe", json!({"topic": "after_long_life", "pattern": pattern, "res": match r {
+                Ok(Ok(())) => "ok".to_string(), Ok(Err(e)) => format!("fail: {e}"), Err(_) => "fail: timeout".to_string() }}));
+        }
+    }
     // C01 / C02: concurrent first registrations on fresh topics
     let rounds: u64 = arg(&args, "--race").and_then(|s| s.parse().ok()).unwrap_or(60);
     {
@@ -868,7 +948,25 @@ pub async fn cmd_tls(args: Vec<String>) -> Result<()> {
             }
             gen_certs_opts(d, *no_expiry)?;
         }
-        log.emit("certs", json!({"dir": d.file_name().map(|f| f.to_string_lossy().to_string()), "regenerated_in_place": true}));
+        // DER files are binary: any byte may come last, also one that would be white space in a text file
+        // (the last byte of a certificate is part of its signature, the last byte of a key file part of
+        // the public point -- random for fresh keys).  Keep regenerating, in place, until one file on
+        // the server's side (set 1) / the client's side (set 2) ends in such a byte.
+        let side = if d == &set1 { "server" } else { "client" };
+        let ends_in_ws = |dir: &PathBuf| -> Vec<String> {
+            ["ca.der", "localhost.der", "localhost.key.der"]
+                .iter()
+                .filter(|f| std::fs::read(dir.join(side).join(f)).ok().and_then(|b| b.last().copied()).map(|b| [0x09u8, 0x0a, 0x0b, 0x0c, 0x0d, 0x20].contains(&b)).unwrap_or(false))
+                .map(|f| f.to_string())
+                .collect()
+        };
+        let mut tries = 0;
+        while ends_in_ws(d).is_empty() && tries < 400 {
+            gen_certs_opts(d, false)?;
+            tries += 1;
+        }
+        log.emit("certs", json!({"dir": d.file_name().map(|f| f.to_string_lossy().to_string()), "regenerated_in_place": true,
+            "further_regenerations": tries, "side": side, "files_ending_in_a_whitespace_byte": ends_in_ws(d)}));
     }
     // a self-signed client certificate
     let ss = rcgen::generate_simple_self_signed(vec!["localhost".to_string()])?;
